@@ -80,11 +80,14 @@ def _c20_sweep(tier):
             # the callback itself raises part-way: every one of its first optyx line events
             kmax, jmax = (2, 6) if tier == "quick" else (min(K, 4), 10)
             sites += [{"site": "cbi", "k": k, "j": j} for k in range(1, kmax + 1) for j in range(1, jmax + 1)]
+            # optyx's own evaluations of the compiled callables after the solver returned
+            # (the post-solve feasibility check)
+            sites += [{"site": "eval", "after_exit": j} for j in range(1, (3 if tier == "quick" else 7))]
         for site in sites:
-            for exc in (gen.EXC_CLASSES if site["site"] != "cbi" or tier != "quick" else ["KeyboardInterrupt", "MemoryError"]):
+            for exc in (gen.EXC_CLASSES if site["site"] not in ("cbi", "eval") or tier != "quick" else ["KeyboardInterrupt", "ValueError"]):
                 f = dict(site, exc=exc)
                 ops = sc["prefix"] + [gen.with_fault(sc["target"], f)] + sc["suffix"]
-                tag = f"sc{i - 1}:{evs[0].get('method')}:K{K}:{site['site']}{site.get('k', '')}j{site.get('j', '')}e{site.get('entry', 0)}:{exc}"
+                tag = f"sc{i - 1}:{evs[0].get('method')}:K{K}:{site['site']}{site.get('k', '')}j{site.get('j', '')}a{site.get('after_exit', '')}e{site.get('entry', 0)}:{exc}"
                 yield tag, {"knobs": knobs, "ops": ops}
 
 
